@@ -287,3 +287,23 @@ Example fresh_poll_ends :
   exists s, run_fixed init [NewSleep; Run 0; Run 0; Fire; Run 1; Run 1; Run 1] = Some s /\
     s_state s = MSleeping /\ s_timer s = true /\ map snd (s_log s) = [OnSleep; OnPoll; OnPollEnd].
 Proof. eexists. split; [vm_compute; reflexivity|]. vm_compute. auto. Qed.
+
+(** ** What the repair does not cover *)
+
+(** A poll passes its first critical section; a wake completes before the
+    poll's goroutine has called OnPoll; the callback (reconnect, and later the
+    agent's disconnect) is then entered in state AWAKE.  The window between the
+    unlock and the callback call cannot be closed without running the callback
+    under the lock. *)
+Lemma refuted_onpoll_entered_after_wake :
+  exists s1 s2, run_fixed init [NewSleep; Run 0; Run 0; Fire; Run 1; NewWake; Run 2; Run 2] = Some s1 /\
+    s_state s1 = MAwake /\ nth_error (s_threads s1) 2 = Some (Done ROk) /\
+    nth_error (s_threads s1) 1 = Some (PollBeforeCb 0) /\
+    exec_fixed s1 (Run 1) = Some s2 /\ s_log s2 = s_log s1 ++ [(1, OnPoll)] /\ s_state s2 = MAwake.
+Proof. eexists. eexists. split; [vm_compute; reflexivity|]. vm_compute. repeat split; reflexivity. Qed.
+
+(** agent.doPoll: state read (not awake), a wake completes, DisconnectAll *)
+Lemma refuted_dopoll_toctou :
+  exists s, drun (mkd MPolling None []) [DReadState; DWakeCompletes; DDisconnect] = Some s /\
+    d_state s = MAwake /\ d_events s = [EvWakeCompleted; EvDisconnectAll].
+Proof. eexists. split; [vm_compute; reflexivity|]. vm_compute. split; reflexivity. Qed.
